@@ -31,6 +31,10 @@ class InjectedAttributeError(AttributeError):
 FAIL_KINDS = (InjectedError, InjectedKeyError, InjectedAttributeError)
 
 
+class Broken(Exception):
+    """Taking the attribute failed: the rest of the history cannot be played (the event is in the trace)."""
+
+
 class CPSys:
     def __init__(self, L, ntask, ninst, uselock, gsusp, failkind=0, exitsusp=0):
         self.ntask, self.ninst, self.uselock, self.gsusp = ntask, ninst, uselock, gsusp
@@ -84,17 +88,20 @@ class CPSys:
 
         deco = L.cached_property(TLock) if uselock else L.cached_property
 
-        class ResBase:
+        class Mixin:               # the property is defined on a mixin that has no instance dictionary of its own ...
+            __slots__ = ()
+            attr = deco(getter)
+
+        class ResBase(Mixin):      # ... and used through ordinary classes that do have one
             def __init__(self, idx):
                 object.__setattr__(self, "idx", idx)
 
             def __setattr__(self, name, value):     # like a frozen dataclass: caching must not go through setattr
                 raise AttributeError(f"cannot assign to field {name!r}")
 
-            attr = deco(getter)
-
         class Res(ResBase):        # the property is inherited: instances are of a subclass of the class that defines it
-            pass
+            def __len__(self):     # an instance that is falsy (an empty container, say) is an instance all the same
+                return 0
 
         self.insts = {i: Res(i) for i in range(1, ninst + 1)}
         self.task = {t: None for t in range(1, ntask + 1)}
@@ -163,7 +170,7 @@ class CPSys:
             self.got[t] = 0
             exc = r[1]
             pending = self.thrown.pop(t, None)
-            expected = thrown if thrown is not None else pending or self.fail_exc.get(t)
+            expected = thrown if thrown is not None else pending if pending is not None else self.fail_exc.get(t)
             self.ev(e="err", t=t, same=exc is expected, what=type(exc).__name__)
 
     def can(self, a, t):
@@ -178,7 +185,13 @@ class CPSys:
     def apply(self, a, t, i=0):
         self.current = t
         if a == "access":
-            o = self.insts[i].attr
+            try:
+                o = self.insts[i].attr
+                o.__await__      # noqa: B018 -- what the attribute gives must be awaitable
+            except Exception as ex:  # noqa: BLE001 -- an attribute that cannot be taken: an event no behaviour of the spec has
+                self.ev(e="access-fails", t=t, i=i, what=type(ex).__name__)
+                self.broken = True
+                raise Broken() from None
             self._scan()
             self.obj[t], self.oinst[t] = o, i
             self.pc[t] = "holding"
@@ -216,7 +229,17 @@ class CPSys:
                 "got": [self.got[t] for t in sorted(self.got)],
                 "runs": self.runs, "lk": lk}
 
+    broken = False
+
     def drain(self, probe=True):
+        if self.broken:
+            return
+        try:
+            self._drain(probe)
+        except Broken:
+            pass
+
+    def _drain(self, probe=True):
         guard = 0
         while True:
             guard += 1
@@ -316,7 +339,11 @@ def replay_path(args):
         if a != "del" and not s.can(a, t):
             drift = {"step": j, "label": e["a"], "why": "not enabled in the implementation"}
             break
-        s.apply(a, t, i)
+        try:
+            s.apply(a, t, i)
+        except Broken:
+            drift = {"step": j, "label": e["a"], "why": "taking the attribute failed"}
+            break
         got = s.project()
         exp = norm(e["t"], s)
         if not uselock:
@@ -339,6 +366,8 @@ def random_run(args):
     s = CPSys(L, ntask, ninst, uselock, gsusp, failkind=seed, exitsusp=seed % 2 if uselock else 0)
     steps = []
     for _ in range(rnd.randint(6, 16 * ntask)):
+        if s.broken:
+            break
         if rnd.random() < 0.06:
             i = rnd.randint(1, ninst)
             if "attr" in s.insts[i].__dict__:
@@ -349,7 +378,10 @@ def random_run(args):
         pc = s.pc[t]
         if pc == "idle":
             i = rnd.randint(1, ninst)
-            s.apply("access", t, i)
+            try:
+                s.apply("access", t, i)
+            except Broken:
+                pass
             steps.append(["access", t, i])
         elif pc == "holding":
             if rnd.random() < 0.8:
